@@ -32,10 +32,10 @@ import (
 	"verifharness/internal/h"
 )
 
-// The two defects of suitableRefType (subtypes matched although excluded; the
-// deletion loop that panicked) are repaired: a panic or an extra reference is an
-// unclassified oracle failure now.
-const sigStale = "C33.nodeclass-mask-uses-stale-class"
+// All three defects this runner used to classify are repaired (subtypes matched
+// although excluded; the deletion loop that panicked; the class mask applied to
+// the class recorded in the reference): every difference between Browse and
+// the specification is an unclassified oracle failure now.
 
 func key(n *ua.NodeID) (uint64, bool) {
 	switch n.Type() {
@@ -53,6 +53,7 @@ type ref struct {
 	target uint64
 	stored uint32
 	actual uint32
+	exists bool
 	nilF   bool
 }
 
@@ -160,7 +161,7 @@ func (w *world) dump() {
 				if r.NodeID != nil {
 					x.target, ok2 = key(r.NodeID.NodeID)
 					if t := w.srv.Node(r.NodeID.NodeID); t != nil {
-						x.actual = uint32(t.NodeClass())
+						x.actual, x.exists = uint32(t.NodeClass()), true
 					}
 				}
 				if !ok1 || !ok2 {
@@ -385,7 +386,11 @@ func (e *env) expected(c bcase) []string {
 		}
 		dirOK := c.dir == 2 || (c.dir == 0 && r.fwd) || (c.dir == 1 && !r.fwd)
 		typeOK := c.rt == 0 || r.typ == c.rt || (c.sub && e.w.closure[c.rt][r.typ])
-		classOK := c.mask == 0 || c.mask&r.actual != 0
+		cls := r.actual // the class the target node has now …
+		if !r.exists {
+			cls = r.stored // … or, for a target outside the address space, the recorded one
+		}
+		classOK := c.mask == 0 || c.mask&cls != 0
 		if dirOK && typeOK && classOK {
 			out = append(out, r.tok())
 		}
@@ -396,7 +401,7 @@ func (e *env) expected(c bcase) []string {
 func (e *env) modelLine(c bcase) string {
 	p := []string{"b", strconv.Itoa(c.dir), fmt.Sprint(c.rt), strconv.Itoa(b2i(c.sub)), fmt.Sprint(c.mask)}
 	for _, r := range e.w.refs[c.node] {
-		p = append(p, fmt.Sprintf("%d:%d:%d:%d:%d", r.typ, b2i(r.fwd), r.target, r.stored, b2i(r.nilF)))
+		p = append(p, fmt.Sprintf("%d:%d:%d:%d:%d:%d:%d", r.typ, b2i(r.fwd), r.target, r.stored, b2i(r.nilF), r.actual, b2i(r.exists)))
 	}
 	return strings.Join(p, " ")
 }
@@ -462,39 +467,20 @@ func (e *env) one(c bcase) string {
 		e.r.Hit("result:refs")
 	}
 	gm, wm := multiset(got), multiset(want)
-	// classify every difference
-	stale := map[string]bool{}
-	for _, r := range e.w.refs[c.node] {
-		if r.stored != r.actual && c.mask != 0 {
-			stale[r.tok()] = true
-		}
-	}
-	sigs := map[string]bool{}
-	var unexplained []string
+	var diffs []string
 	for t, n := range gm {
-		if n > wm[t] { // returned but not selected by the specification
-			if stale[t] {
-				sigs[sigStale] = true
-			} else {
-				unexplained = append(unexplained, "extra "+t)
-			}
+		if n > wm[t] {
+			diffs = append(diffs, "extra "+t)
 		}
 	}
 	for t, n := range wm {
-		if n > gm[t] { // selected by the specification but not returned
-			if stale[t] {
-				sigs[sigStale] = true
-			} else {
-				unexplained = append(unexplained, "missing "+t)
-			}
+		if n > gm[t] {
+			diffs = append(diffs, "missing "+t)
 		}
 	}
-	sort.Strings(unexplained)
-	if len(unexplained) > 0 {
-		e.fail(c, "", fmt.Sprintf("Browse returned %d references, the specification selects %d: %s", len(got), len(want), strings.Join(unexplained, ", ")))
-	}
-	for s := range sigs {
-		e.fail(c, s, fmt.Sprintf("Browse returned %d references, the specification selects %d", len(got), len(want)))
+	sort.Strings(diffs)
+	if len(diffs) > 0 {
+		e.fail(c, "", fmt.Sprintf("Browse returned %d references, the specification selects %d: %s", len(got), len(want), strings.Join(diffs, ", ")))
 	}
 	return impl
 }
@@ -689,9 +675,11 @@ func main() {
 	} else {
 		r.InfraError = "child: " + err.Error()
 	}
-	c := bcase{1<<32 | 5000, 0, 0, true, 1}
-	if x := e.w.browseInProc(c); !strings.Contains(x, fmt.Sprintf(":%d", uint64(1<<32|5010))) && strings.Contains(strings.Join(e.expected(c), " "), fmt.Sprintf(":%d", uint64(1<<32|5010))) {
-		r.Confirm(sigStale, "folder ns=1;i=5000 references ns=1;i=5010 recorded as Variable; the node's class is Object now; Browse with NodeClassMask=Object omits it (also in the standard address space: i=2253 -> i=2255 recorded Variable, node says Object)")
+	// the former witness of the stale class: the folder's reference to i=5010 was recorded as Variable,
+	// the node says Object now; mask=Object must return it, mask=Variable must not
+	for _, c := range []bcase{{1<<32 | 5000, 0, 0, true, 1}, {1<<32 | 5000, 0, 0, true, 2}, {2253, 0, 0, true, 1}, {2253, 0, 0, true, 2}} {
+		e.one(c)
+		r.Hit("stale-class-witness")
 	}
 	// (4) the hierarchy changes while the server runs: a new reference type below HasComponent is
 	// added AFTER the browses above, a node gets a reference of that type, and the supertypes must
@@ -734,7 +722,7 @@ func main() {
 		e.d = d2
 	}
 	for _, b := range []string{"dir:0", "dir:1", "dir:2", "sub:true", "sub:false", "reftype:none", "reftype:with-subtypes", "reftype:leaf-or-unknown",
-		"mask:0", "mask:set", "result:empty", "result:refs", "srt:yes", "srt:no", "wire:ok", "late-subtype-phase"} {
+		"mask:0", "mask:set", "result:empty", "result:refs", "srt:yes", "srt:no", "wire:ok", "late-subtype-phase", "stale-class-witness"} {
 		if r.Distribution[b] == 0 {
 			r.Unreached = append(r.Unreached, b)
 		}
